@@ -67,6 +67,12 @@ class Check:
         if not ex.exhausted:
             self.harness_errors.append("%s %s: path/time budget exhausted before the work list was empty" % (ex.target, json.dumps(ex.params)))
         self.undecided += len(ex.unknown_obligations)
+        for kind, cnt in (ex.events or {}).items():
+            if kind.startswith("contract_cut:"):
+                # a stub's contract assumption was unsatisfiable on a feasible path: the stub silently removes real
+                # behaviour (the first approx_derivative stub did that on degenerate sides).  Never tolerated.
+                self.harness_errors.append("%s %s: stub contract '%s' cannot be met on %d feasible path prefixes (the stub cuts real behaviour)" % (
+                    ex.target, json.dumps(ex.params), kind.split(":", 1)[1], cnt))
         if ex.paths == 0:
             self.harness_errors.append("%s %s: no feasible path (vacuous harness)" % (ex.target, json.dumps(ex.params)))
         return ex
